@@ -1,4 +1,4 @@
-\* thorough: 3 contracts, 2 groups, stack depth <= 3, <= 2 table changes per transaction, 2 transactions (same / next block), leaf frames without ReadStates; no try blocks
+\* quick: ONE transaction, depth <= 2, <= 2 changes, with calls from try blocks / caught exceptions
 SPECIFICATION ISpec
 CONSTANTS
   Universe = "quick"
@@ -6,11 +6,11 @@ CONSTANTS
   Contracts <- MCContracts
   Groups <- MCGroups
   InitTables <- MCInitTables
-  MaxDepth = 3
+  MaxDepth = 2
   MaxChanges = 2
-  MaxTx = 2
-  WithTry = FALSE
+  MaxTx = 1
+  WithTry = TRUE
   WithNoRS = TRUE
 INVARIANTS ImplAgrees Coherent
-
+PROPERTY DeadForEver
 CHECK_DEADLOCK FALSE
